@@ -265,7 +265,9 @@ pub struct LinkState {
     pub over_budget: bool,
     pub log_truncated: bool,
     pub log_truncated_at_ns: u64,
-    real_ids: std::collections::HashSet<[u8; 16]>,
+    /// credential ids each client host has used on genuine packets (keyed by the client's IP: the
+    /// path-secret map is per client, another client's id is unknown to it)
+    real_ids: std::collections::HashSet<(std::net::IpAddr, [u8; 16])>,
     delivered_flows: std::collections::HashSet<(u8, u64)>,
     forge_as_drop: bool,
 }
@@ -451,10 +453,10 @@ impl LinkState {
             bytes_hash: if (KIND_STALE_KEY..=KIND_UPS).contains(&meta.kind) { 0 } else { simkit::hash_bytes(&bytes) },
         };
         if dir == DIR_C2S && meta.kind <= KIND_CONTROL {
-            self.real_ids.insert(meta.cred_id);
+            self.real_ids.insert((src.ip(), meta.cred_id));
         }
         if meta.kind == KIND_UPS {
-            rec.known_id = self.real_ids.contains(&meta.cred_id);
+            rec.known_id = self.real_ids.contains(&(dst.ip(), meta.cred_id));
         }
         let mut outs = vec![];
 
